@@ -36,8 +36,8 @@ class YYbar:
         """
         _, ax = plt.subplots(figsize=figsize)
 
-        ya, _ = self.optic.paraxial.marginal_ray()
-        yb, _ = self.optic.paraxial.chief_ray()
+        ya, _ = self.optic.paraxial.marginal_ray(self.wavelength)
+        yb, _ = self.optic.paraxial.chief_ray(self.wavelength)
 
         ya = ya.flatten()
         yb = yb.flatten()
